@@ -128,6 +128,38 @@ func c02noMem(e *c02env, op InstructionRunner) {
 	vp.Assert(len(op.MemoryRead(e.ctx, 0)) == 0 && len(op.MemoryWrite(e.ctx, 0)) == 0, "no-mem")
 }
 
+var c02immText string
+
+// c02imm: a symbolic immediate. via=struct: any int32. via=parse: a decimal
+// text of two symbolic digits with a symbolic sign choice (the value the
+// assembler must decode).
+func c02imm(name string) int32 {
+	if vp.S("via") != "parse" {
+		return vp.I32(name)
+	}
+	txt, v := c11imm(name)
+	c02immText = txt
+	return v
+}
+
+func c02name(r RegisterType) string { return c11names[r] }
+
+// c02via: via=parse replaces the directly built op by the one risc.Parse
+// decodes from the assembly text (the observation point named by the property),
+// followed by a label and a ret so that pc accounting is checked too.
+func c02via(op InstructionRunner, text string) InstructionRunner {
+	if vp.S("via") != "parse" {
+		return op
+	}
+	app, err := Parse(text + "\nZ:\nret\n")
+	vp.Assert(err == nil && len(app.Instructions) == 2, "parse:accepted")
+	if err != nil || len(app.Instructions) != 2 {
+		vp.Assume(false)
+	}
+	vp.Assert(app.Labels["Z"] == 4, "parse:pc-accounting")
+	return app.Instructions[0]
+}
+
 // VerifC02 checks the instruction named by job parameter "op".
 func VerifC02() {
 	mn := vp.S("op")
@@ -169,6 +201,7 @@ func VerifC02() {
 		case "rem":
 			op = &rem{rd: rd, rs1: rs1, rs2: rs2}
 		}
+		op = c02via(op, mn+" "+c02name(rd)+", "+c02name(rs1)+", "+c02name(rs2))
 		c02decl(op, []RegisterType{rs1, rs2}, []RegisterType{rd})
 		c02noMem(e, op)
 		if mn == "div" || mn == "rem" {
@@ -195,7 +228,7 @@ func VerifC02() {
 	case "addi", "andi", "ori", "xori", "slti", "slli", "srli", "srai":
 		rd, rs := p[0], p[1]
 		a := e.val(rs)
-		imm := vp.I32("imm")
+		imm := c02imm("imm")
 		var op InstructionRunner
 		var want int32
 		switch mn {
@@ -219,6 +252,7 @@ func VerifC02() {
 			vp.Assume(imm >= 0 && imm < 32)
 			op, want = &srai{rd: rd, rs: rs, imm: imm}, a>>uint32(imm)
 		}
+		op = c02via(op, mn+" "+c02name(rd)+", "+c02name(rs)+", "+c02immText)
 		c02decl(op, []RegisterType{rs}, []RegisterType{rd})
 		c02noMem(e, op)
 		exe, err := op.Run(e.ctx, nil, pc, nil, 0)
@@ -227,7 +261,8 @@ func VerifC02() {
 		e.unchanged()
 	case "mv":
 		rd, rs := p[0], p[1]
-		op := &mv{rd: rd, rs: rs}
+		var op InstructionRunner = &mv{rd: rd, rs: rs}
+		op = c02via(op, "mv "+c02name(rd)+", "+c02name(rs))
 		c02decl(op, []RegisterType{rs}, []RegisterType{rd})
 		c02noMem(e, op)
 		exe, err := op.Run(e.ctx, nil, pc, nil, 0)
@@ -236,7 +271,7 @@ func VerifC02() {
 		e.unchanged()
 	case "li", "lui", "auipc":
 		rd := p[0]
-		imm := vp.I32("imm")
+		imm := c02imm("imm")
 		var op InstructionRunner
 		var want int32
 		switch mn {
@@ -247,6 +282,7 @@ func VerifC02() {
 		case "auipc":
 			op, want = &auipc{rd: rd, imm: imm}, pc+int32(uint32(imm)<<12)
 		}
+		op = c02via(op, mn+" "+c02name(rd)+", "+c02immText)
 		c02decl(op, nil, []RegisterType{rd})
 		c02noMem(e, op)
 		exe, err := op.Run(e.ctx, nil, pc, nil, 0)
@@ -265,6 +301,7 @@ func VerifC02() {
 			} else {
 				op, taken = &bnez{rs: rs1, label: "L"}, a != 0
 			}
+			op = c02via(op, mn+" "+c02name(rs1)+", L")
 			c02decl(op, []RegisterType{rs1}, nil)
 		} else {
 			rs1, rs2 = p[0], p[1]
@@ -285,6 +322,7 @@ func VerifC02() {
 			case "bgeu":
 				op, taken = &bgeu{rs1: rs1, rs2: rs2, label: "L"}, uint32(a) >= uint32(b)
 			}
+			op = c02via(op, mn+" "+c02name(rs1)+", "+c02name(rs2)+", L")
 			c02decl(op, []RegisterType{rs1, rs2}, nil)
 		}
 		c02noMem(e, op)
@@ -324,10 +362,12 @@ func VerifC02() {
 		rd := Zero
 		if mn == "j" {
 			op = &j{label: "L"}
+			op = c02via(op, "j L")
 			c02decl(op, nil, nil)
 		} else {
 			rd = p[0]
 			op = &jal{label: "L", rd: rd}
+			op = c02via(op, "jal "+c02name(rd)+", L")
 			c02decl(op, nil, []RegisterType{rd})
 		}
 		c02noMem(e, op)
@@ -350,8 +390,9 @@ func VerifC02() {
 		e.unchanged()
 	case "jalr":
 		rd, rs := p[0], p[1]
-		imm := vp.I32("imm")
-		op := &jalr{rd: rd, rs: rs, imm: imm}
+		imm := c02imm("imm")
+		var op InstructionRunner = &jalr{rd: rd, rs: rs, imm: imm}
+		op = c02via(op, "jalr "+c02name(rd)+", "+c02name(rs)+", "+c02immText)
 		c02decl(op, []RegisterType{rs}, []RegisterType{rd})
 		c02noMem(e, op)
 		exe, err := op.Run(e.ctx, nil, pc, nil, 0)
@@ -360,7 +401,7 @@ func VerifC02() {
 		e.unchanged()
 	case "lb", "lh", "lw":
 		rd, rs := p[0], p[1]
-		off := vp.I32("off")
+		off := c02imm("off")
 		addr := e.val(rs) + off
 		m0, m1, m2, m3 := vp.I8("m0"), vp.I8("m1"), vp.I8("m2"), vp.I8("m3")
 		var op InstructionRunner
@@ -374,6 +415,7 @@ func VerifC02() {
 		case "lw":
 			op, k, want = &lw{rd: rd, offset: off, rs: rs}, 4, int32(uint32(uint8(m0))|uint32(uint8(m1))<<8|uint32(uint8(m2))<<16|uint32(uint8(m3))<<24)
 		}
+		op = c02via(op, mn+" "+c02name(rd)+", "+c02immText+"("+c02name(rs)+")")
 		c02decl(op, []RegisterType{rs}, []RegisterType{rd})
 		addrs := op.MemoryRead(e.ctx, 0)
 		vp.Assert(len(addrs) == k, "load-addrs")
@@ -387,7 +429,7 @@ func VerifC02() {
 		e.unchanged()
 	case "sb", "sh", "sw":
 		base, data := p[0], p[1]
-		off := vp.I32("off")
+		off := c02imm("off")
 		addr := e.val(base) + off
 		d := uint32(e.val(data))
 		var op InstructionRunner
@@ -399,6 +441,11 @@ func VerifC02() {
 			op, k = &sh{rs: data, offset: off, rd: base}, 2
 		case "sw":
 			op, k = &sw{rs: data, offset: off, rd: base}, 4
+		}
+		if mn == "sh" {
+			op = c02via(op, "sh "+c02name(data)+", "+c02immText+", "+c02name(base)) // this assembler writes sh with three operands
+		} else {
+			op = c02via(op, mn+" "+c02name(data)+", "+c02immText+"("+c02name(base)+")")
 		}
 		c02decl(op, []RegisterType{base, data}, nil)
 		addrs := op.MemoryWrite(e.ctx, 0)
@@ -424,6 +471,7 @@ func VerifC02() {
 		} else {
 			op = &ret{}
 		}
+		op = c02via(op, mn)
 		c02decl(op, nil, nil)
 		c02noMem(e, op)
 		exe, err := op.Run(e.ctx, nil, pc, nil, 0)
